@@ -331,7 +331,11 @@ def fx_commit(fx):
     c = _ctx()
     for nm in ("bad_reserve", "ok_reserve", "ok_undo"):
         sync.commit_before_check(c, Fn(fx.raw("commit::Arena::" + nm)))
-    return _fires(c, "Arena::bad_reserve") and not _fires(c, "Arena::ok_reserve") and not _fires(c, "Arena::ok_undo")
+    ok1 = _fires(c, "Arena::bad_reserve") and not _fires(c, "Arena::ok_reserve") and not _fires(c, "Arena::ok_undo")
+    c2 = _ctx()
+    for nm in ("bad_acquire", "ok_acquire", "ok_fresh_id"):
+        sync.commit_before_check(c2, Fn(fx.raw("commit2::Mgr::" + nm)), fx=fx)
+    return ok1 and _fires(c2, "Mgr::bad_acquire") and not _fires(c2, "Mgr::ok_acquire") and not _fires(c2, "Mgr::ok_fresh_id")
 
 
 def fx_relink(fx):
@@ -647,3 +651,38 @@ def fx_release(fx):
     c = _ctx()
     n = release.run(c, fx, ["src/lib.rs"], only=lambda fid: "releasefx::" in fid)
     return n >= 2 and _fires(c, "bad_free_then_scrub") and not _fires(c, "ok_scrub_then_free")
+
+
+def fx_padmask(fx):
+    from rules import simdsign
+    c = _ctx()
+    n = simdsign.padded_mask(c, fx, ["src/lib.rs"], only=lambda fid: "padfx::" in fid)
+    return n == 2 and _fires(c, "padfx::bad_find") and not _fires(c, "padfx::ok_find")
+
+
+def fx_flatten(fx):
+    from rules import errdead
+    c = _ctx()
+    errdead.no_result_flatten(c, fx, ["src/lib.rs"], only=lambda fid: "flattenfx::" in fid)
+    return _fires(c, "flattenfx::bad_join") and not _fires(c, "flattenfx::ok_join") and not _fires(c, "flattenfx::ok_flatten_options")
+
+
+def fx_narrowidx(fx):
+    from rules import narrow
+    c = _ctx()
+    n = narrow.index_param_narrowed(c, fx, ["src/lib.rs"], only=lambda fid: "nidxfx::" in fid)
+    return n == 2 and _fires(c, "nidxfx::V32::bad_index") and not _fires(c, "nidxfx::V32::ok_index")
+
+
+def fx_pow2(fx):
+    from rules import wrap
+    c = _ctx()
+    n = wrap.mask_needs_power_of_two(c, _Only(fx, "pow2fx::"), ["src/lib.rs"])
+    return n == 2 and _fires(c, "pow2fx::BadRing") and not _fires(c, "pow2fx::OkRing")
+
+
+def fx_panicsafe(fx):
+    from rules import shrink
+    c = _ctx()
+    n = shrink.len_committed_per_item(c, fx, ["src/lib.rs"], only=lambda fid: "psfx::" in fid)
+    return n == 2 and _fires(c, "psfx::RawVec::bad_extend") and not _fires(c, "psfx::RawVec::ok_extend")
